@@ -1,4 +1,5 @@
 #!/usr/bin/env python
+import attrs
 import torch
 
 from .. import game, moves, pieces
@@ -95,11 +96,17 @@ def decode(board: torch.Tensor) -> game.Position:
     else:
         to_play = pieces.Color.BLACK
     i += 1
+    reserves = []
     for _ in range(2):
         assert board[i].item() in Token.RESERVES
+        stones = board[i].item() - Token.FIRST_RESERVES_VALUE
         i += 1
         assert board[i].item() in Token.CAPSTONES
+        caps = board[i].item() - Token.FIRST_CAPSTONES_VALUE
         i += 1
+        reserves.append(game.StoneCounts(stones=stones, caps=caps))
+    if to_play == pieces.Color.BLACK:
+        reserves.reverse()
 
     squares = []
     this_sq = None
@@ -137,9 +144,10 @@ def decode(board: torch.Tensor) -> game.Position:
         squares.append(this_sq)
     size = int(len(squares) ** (1 / 2))
     assert size * size == len(squares), f"Got a bad number of squares: {len(squares)}"
-    return game.Position.from_squares(
+    position = game.Position.from_squares(
         game.Config(size=size), squares, 2 if to_play == pieces.Color.WHITE else 3
     )
+    return attrs.evolve(position, stones=tuple(reserves))
 
 
 def _encode_batch(
